@@ -265,7 +265,8 @@ package sm
 //@
 //@ func (*Client).dwr(cli, c, osid, dwac)
 //@   property C13
-//@   requires cliok(cli) && c != nil && isptr(c) && cli.MaxRetransmits < 1<<62 && 0 <= sends(c) && sends(c) < 1<<62 && 0 <= written(c)
+//@   requires cliok(cli) && c != nil && isptr(c) && cli.MaxRetransmits < 1<<62
+//@   requires counters_in_range: 0 <= sends(c) && sends(c) < 1<<62 && 0 <= written(c)
 //@   requires [C13] acknowledgements_are_not_stored: chancap(dwac) == 0
 //@   assume default_dictionary_initialised: dict.Default != nil && pwf(dict.Default)
 //@   assumepre WriteToStream: the DWR built from the settings fits a Diameter message and the bytes written on the connection so far are below 2^44
@@ -334,7 +335,12 @@ package sm
 //@ # see handleCEA$1) and is an arbitrary value here; the spacing of retransmissions in time is not modelled.
 //@ func (*Client).handshake(cli, c) (rc, err)
 //@   property C12 C13
-//@   requires cliok(cli) && muxwf(cli.Handler.mux) && diam.ALL_CMD_INDEX == allidx() && c != nil && isptr(c) && cli.MaxRetransmits < 1<<62 && 0 <= sends(c) && sends(c) < 1<<62 && 0 <= written(c)
+//@   requires [C13] the_watchdog_can_be_told_when_the_connection_closes: cli.EnableWatchdog ==> implements(c, diam.CloseNotifier)
+//@   requires client_ok: cliok(cli)
+//@   requires mux_ok: muxwf(cli.Handler.mux)
+//@   requires catch_all_key: diam.ALL_CMD_INDEX == allidx()
+//@   requires a_connection: c != nil && isptr(c) && cli.MaxRetransmits < 1<<62
+//@   requires counters_in_range: 0 <= sends(c) && sends(c) < 1<<62 && 0 <= written(c)
 //@   assume default_dictionary_initialised: dict.Default != nil && pwf(dict.Default)
 //@   assumepre WriteTo: the CER built from the settings fits a Diameter message and the bytes written on the connection so far are below 2^44
 //@   modifies sends(c), lastsent(c), connclosed(c), written(c), wstream(c), wlog(c)[written(c):1<<45], bufslice(any), bytes(any), inpool(any),
@@ -349,4 +355,83 @@ package sm
 //@     invariant [C12] same_request: fresh(m) && iscer(m, cli.Handler.cfg) && (i > 0 ==> lastsent(c) == m)
 //@     invariant errc != nil && !closed(errc)
 //@   end
+//@ end
+//@
+//@ # ======================= client.go: dialling (C12, C13) =====
+//@ # every way of opening a client connection goes through Client.dial with a function that opens the transport; what it
+//@ # opens is one of the library's own connections (so it is a pointer, and it can notify of its closing, which the
+//@ # watchdog relies on), and the connection is handed out only through the handshake
+//@ functype sm.dialFunc(f) (c, err)
+//@   modifies
+//@   ensures a_library_connection: err == nil ==> c != nil && isptr(c) && implements(c, diam.CloseNotifier)
+//@ end
+//@ func (*Client).NewConn$1() (c, err)
+//@   property C12
+//@   modifies
+//@   implements sm.dialFunc
+//@   assume captured_receiver: cli != nil
+//@   assume the_caller_supplies_a_transport: rw != nil
+//@ end
+//@ func (*Client).DialExt$1() (c, err)
+//@   property C12
+//@   modifies
+//@   implements sm.dialFunc
+//@   assume captured_receiver: cli != nil
+//@ end
+//@ func (*Client).DialTLSExt$1() (c, err)
+//@   property C12
+//@   modifies
+//@   implements sm.dialFunc
+//@   assume captured_receiver: cli != nil
+//@ end
+//@ func (*Client).DialNetworkBind$1() (c, err)
+//@   property C12
+//@   modifies
+//@   implements sm.dialFunc
+//@   assume captured_receiver: cli != nil
+//@ end
+//@ func (*Client).watchdog(cli, c, dwac)
+//@   property C13
+//@   requires cliok(cli) && c != nil && isptr(c) && implements(c, diam.CloseNotifier) && cli.MaxRetransmits < 1<<62
+//@   requires [C13] acknowledgements_are_not_stored: chancap(dwac) == 0
+//@   assumepre dwr.counters_in_range: the ghost counters of messages and bytes sent on a connection count real transmissions and stay far below 2^62
+//@   atcall dwr: [C13] requests_go_to_this_connection_and_acks_come_from_its_channel: ARG1 == c && ARG3 == dwac && ARG2 == uint32(cli.Handler.cfg.OriginStateID)
+//@ end
+//@ func (*Client).validate(cli) (err)
+//@   property C12
+//@   requires cli != nil
+//@   requires advertised_ids_are_unsigned32: (forall i int :: 0 <= i && i < len(cli.AcctApplicationID) ==> cli.AcctApplicationID[i] != nil && typeis(cli.AcctApplicationID[i].Data, datatype.Unsigned32)) &&
+//@            (forall i int :: 0 <= i && i < len(cli.AuthApplicationID) ==> cli.AuthApplicationID[i] != nil && typeis(cli.AuthApplicationID[i].Data, datatype.Unsigned32))
+//@   assume default_dictionary_initialised: dict.Default != nil && pwf(dict.Default)
+//@   requires supported_apps_listed: cli.Handler != nil ==> (forall i int :: 0 <= i && i < len(cli.Handler.supportedApps) ==> cli.Handler.supportedApps[i] != nil)
+//@   modifies cli.Dict, cli.RetransmitInterval, cli.WatchdogInterval
+//@   ensures [C12] a_state_machine_and_a_dictionary: err == nil ==> cli.Handler != nil && cli.Dict != nil && cli.Dict == (old(cli.Dict) != nil ? old(cli.Dict) : dict.Default)
+//@   ensures [C12] intervals_defaulted: err == nil ==> cli.RetransmitInterval != 0 && cli.WatchdogInterval != 0
+//@   loop 0
+//@     invariant 0 - 1 <= rangeindex && rangeindex < len(cli.AcctApplicationID) && cli.Handler != nil && cli.Dict != nil && cli.RetransmitInterval != 0 && cli.WatchdogInterval != 0
+//@   end
+//@   loop 1
+//@     invariant 0 - 1 <= rangeindex && rangeindex < len(cli.Handler.supportedApps)
+//@   end
+//@   loop 2
+//@     invariant 0 - 1 <= rangeindex && rangeindex < len(cli.AuthApplicationID) && cli.Handler != nil && cli.Dict != nil && cli.RetransmitInterval != 0 && cli.WatchdogInterval != 0
+//@   end
+//@   loop 3
+//@     invariant 0 - 1 <= rangeindex && rangeindex < len(cli.Handler.supportedApps)
+//@   end
+//@ end
+//@ # Client.dial: settings are validated, the transport is opened, and the connection is handed out only through the
+//@ # handshake (C12: "returns a usable connection exactly when a success CEA ... arrives"; on failure the handshake has
+//@ # closed the transport)
+//@ func (*Client).dial(cli, f) (rc, err)
+//@   property C12
+//@   requires cli != nil && f != nil && (cli.Handler != nil ==> smok(cli.Handler) && muxwf(cli.Handler.mux)) && (cli.Dict != nil ==> pwf(cli.Dict)) && cli.MaxRetransmits < 1<<62
+//@   requires advertised_ids_are_unsigned32: (forall i int :: 0 <= i && i < len(cli.AcctApplicationID) ==> cli.AcctApplicationID[i] != nil && typeis(cli.AcctApplicationID[i].Data, datatype.Unsigned32)) &&
+//@            (forall i int :: 0 <= i && i < len(cli.AuthApplicationID) ==> cli.AuthApplicationID[i] != nil && typeis(cli.AuthApplicationID[i].Data, datatype.Unsigned32))
+//@   requires supported_apps_listed: cli.Handler != nil ==> (forall i int :: 0 <= i && i < len(cli.Handler.supportedApps) ==> cli.Handler.supportedApps[i] != nil)
+//@   assume default_dictionary_initialised: dict.Default != nil && pwf(dict.Default)
+//@   assume catch_all_key: diam.ALL_CMD_INDEX == allidx()
+//@   assumepre handshake.counters_in_range: the ghost counters of messages and bytes sent on a connection count real transmissions and stay far below 2^62
+//@   atcall handshake: [C12] the_connection_just_opened_is_the_one_shaken_hands_on: ARG0 == cli
+//@   ensures [C12] no_connection_without_a_handshake: err == nil ==> rc != nil && sends(rc) > 0 && iscer(lastsent(rc), cli.Handler.cfg)
 //@ end
